@@ -780,6 +780,34 @@ fn c04(thorough: bool) -> Suite {
         &[env(2, 1, Some(0), UNB), env(1, 1, Some(0), UNB)],
         true,
     ));
+    // scripted futures polled while the peer is in the middle of the hand-off
+    // (no wake-up in between that would order the accesses by itself)
+    ps.extend(product(
+        "c04-futr",
+        &[
+            seqs(&[Op::Send, Op::TrySend], 1),
+            vec![vec![Op::FRecv(0), Op::Poll(0, 0), Op::Poll(0, 0), Op::Poll(0, 0)]],
+        ],
+        &[Cap::B(0), Cap::B(1)],
+        &classes,
+        &[vec![(S, S), (A, A)]],
+        &[(S, Conv::Clone)],
+        &[env(2, 1, None, Some(if thorough { 6 } else { 4 }))],
+        true,
+    ));
+    ps.extend(product(
+        "c04-futs",
+        &[
+            vec![vec![Op::FSend(0), Op::Poll(0, 0), Op::Poll(0, 0), Op::Poll(0, 0)]],
+            seqs(&[Op::Recv, Op::TryRecv], 1),
+        ],
+        &[Cap::B(0)],
+        &classes,
+        &[vec![(A, A), (S, S)]],
+        &[(S, Conv::Clone)],
+        &[env(2, 1, None, Some(if thorough { 6 } else { 4 }))],
+        true,
+    ));
     // two values: refill of the buffer from a blocked sender
     ps.extend(product(
         "c04-2",
